@@ -442,8 +442,12 @@ func (w *vfC15Worker) runCase(c vfC15Case, seed int64) (vfC15Result, []map[strin
 	if panicked != "" {
 		normal, res.Ended, msg = 3, "panic", panicked
 		errpage = -1
-	} else if aborted {
+	} else if aborted || (err != nil && strings.Contains(err.Error(), "vf-runaway")) {
+		// stopped by the harness's runaway guards (rows without end / requests without end): not an ending of the driver's
 		normal, res.Ended = 2, "aborted"
+		if err != nil {
+			msg = err.Error()
+		}
 	} else if err != nil {
 		normal, errpage, msg = 0, -1, err.Error()
 		res.Ended = "error"
